@@ -72,8 +72,22 @@ def guard (tc : TC) : Guard → JV → Bool
   | .lenNe0, v => (match tc with
                    | .str => !v.isEmptyStr                    -- len of a string
                    | _ => !(v.isNull || v.isEmptyColl))        -- len of a slice or map (nil has length 0)
+  | .neNilLenNe0, v => !(v.isNull || v.isEmptyColl)      -- x != nil && len(*x) != 0
+  | .orEmpty, _ => true                                    -- both branches write the key
   | .addProps, v => !v.isNull
   | .unknown _, _ => false
+
+/-- the value one `m["k"] = …` statement writes for a field holding `v`: the field itself, except in the
+    `else` branch of `if x != nil { m[k] = x } else { m[k] = T{} }`, which writes an empty map -/
+def written : Guard → JV → JV
+  | .orEmpty, .null => .obj []
+  | _, v => v
+
+/-- guards under which the key is written whatever the field holds -/
+def Guard.uncond : Guard → Bool
+  | .always => true
+  | .orEmpty => true
+  | _ => false
 
 /-! ### one kind, flat -/
 
@@ -97,7 +111,8 @@ def tcOfGo (d : Desc) (g : String) : TC :=
   match fieldByGo d g with | some f => f.tc | none => .unknown
 
 def emit (child : String → JV → JV) (d : Desc) (r : Rec) (m : MField) : Option (String × JV) :=
-  if guard (tcOfGo d m.goName) m.guard (r.fld m.goName) then some (m.key, child m.goName (r.fld m.goName)) else none
+  if guard (tcOfGo d m.goName) m.guard (r.fld m.goName)
+  then some (m.key, child m.goName (written m.guard (r.fld m.goName))) else none
 
 /-- `MarshalYAML`; `child` is what marshalling does to the value of a Go field (identity in the flat model) -/
 def marshalWith (child : String → JV → JV) (d : Desc) (r : Rec) : Obj :=
@@ -120,6 +135,7 @@ def compat : TC → Guard → Bool
   | .uint, .neZero => true
   | .ptr, .neNil => true
   | .ptr, .always => true
+  | .ptypes, .neNilLenNe0 => true    -- (`.ptypes, .neNil` is NOT compatible: the empty list, a default, would be written)
   | .slice, .lenNe0 => true
   | .slice, .neNil => true
   | .map, .lenNe0 => true
@@ -127,6 +143,7 @@ def compat : TC → Guard → Bool
   | .map, .always => true
   | .nmap, .lenNe0 => true
   | .nmap, .neNil => true
+  | .nmap, .orEmpty => true          -- (`.nmap, .always` is NOT compatible: nil ↦ null ↦ empty map ↦ {} is not stable)
   | .iface, .neNil => true
   | .value, .always => true
   | .addProps, .addProps => true
@@ -139,11 +156,6 @@ def shapeKnown : Shape → Bool
   | .pmap s => shapeKnown s
   | _ => true
 
-/-- `compat` plus the one combination that loses nothing but is not stable: a named map written
-    unconditionally (nil ↦ null ↦ empty map ↦ {}) — `RequestBody.content`, `OAuthFlow.scopes` -/
-def compatW (tc : TC) (g : Guard) : Bool :=
-  compat tc g || (tc == .nmap && g == .always)
-
 /-- every marshal statement reads the field whose tag is the key it writes, under a fitting guard -/
 def marshFieldOK (c : TC → Guard → Bool) (d : Desc) (m : MField) : Bool :=
   match fieldByGo d m.goName with
@@ -154,7 +166,7 @@ def tagKeys (d : Desc) : List String := d.fields.map (·.key)
 def marshKeys (d : Desc) : List String := d.marsh.map (·.key)
 
 /-- keys the marshaller writes unconditionally -/
-def alwaysKeys (d : Desc) : List String := (d.marsh.filter (fun m => m.guard == .always)).map (·.key)
+def alwaysKeys (d : Desc) : List String := (d.marsh.filter (fun m => m.guard.uncond)).map (·.key)
 
 /-- Fields that the OpenAPI specifications (3.0.3 / 2.0) mark REQUIRED and that the Go types serialise
     even when empty. Written from the specification text, not from the marshallers; `structAgree` demands
@@ -199,12 +211,12 @@ def Desc.agreeWith (c : TC → Guard → Bool) (d : Desc) : Bool :=
   (match d.template with
    | .struct => d.hasMarsh && d.hasUnm && d.delegates && structAgreeWith c d
    | .alias => d.uniform && shapeKnown d.valueShape
+   | .namedMap => d.hasUnm && d.uniform && shapeKnown d.valueShape
+   | .special => d.uniform
    | _ => d.hasMarsh && d.hasUnm && d.delegates && d.uniform && shapeKnown d.valueShape)
 
-/-- full agreement: the round trip of the kind loses nothing, invents nothing and is stable -/
+/-- agreement: the round trip of the kind loses nothing, invents nothing and is stable -/
 def Desc.agree (d : Desc) : Bool := d.agreeWith compat
-/-- weak agreement: loses nothing and invents nothing (stability may fail for a nil named map) -/
-def Desc.agreeW (d : Desc) : Bool := d.agreeWith compatW
 
 /-- a shape whose null entries are decoded into pointers to zero wrappers that cannot be marshalled
     (wrapper `w` neither checks `Value` itself nor has a nil-tolerant value marshaller) -/
@@ -235,6 +247,7 @@ def isDefault (tc : TC) (v : JV) : Bool :=
    | .str => v.isEmptyStr
    | .bool => v.isFalse
    | .uint => v.isZeroNum
+   | .ptypes => v.isEmptyColl
    | .slice => v.isEmptyColl
    | .map => v.isEmptyColl
    | .nmap => v.isEmptyColl
@@ -265,12 +278,53 @@ def refString (o : Obj) : Option String :=
 
 def isExtKey (k : String) : Bool := "x-".toList.isPrefixOf k.toList
 
-/-- `Types`: a string becomes a one-element list and is written back as a string; a one-element list is
-    written as a string; the empty list is written as null -/
-def rtTypes : JV → JV
-  | .arr [] => .null
-  | .arr [x] => x
-  | v => v
+/-- why the deep model has no value: the real code panics (nil dereference in a value-receiver
+    `MarshalYAML`), the fuel of the model ran out (never with the fuel the driver passes), or the real
+    decoder refuses the input (modelled for `Types` only: elsewhere the model is silent about typing) -/
+inductive Err | panic | fuel | unparsed
+  deriving DecidableEq, Repr
+
+abbrev Res := Except Err
+
+/-- `List.mapM` for `Res`, written out (structural: reduces under `decide`, easy induction) -/
+def mapR {α β : Type} (f : α → Res β) : List α → Res (List β)
+  | [] => .ok []
+  | x :: xs =>
+    match f x with
+    | .error e => .error e
+    | .ok y =>
+      match mapR f xs with
+      | .error e => .error e
+      | .ok ys => .ok (y :: ys)
+
+def Res.wrap {α β : Type} (c : α → β) : Res α → Res β
+  | .ok a => .ok (c a)
+  | .error e => .error e
+
+/-- key-preserving map over the members of an object -/
+def mapKV (g : String → JV → Res JV) (kvs : Obj) : Res Obj :=
+  mapR (fun (kv : String × JV) => (g kv.1 kv.2).wrap (fun v' => (kv.1, v'))) kvs
+
+/-- one element of a `[]string`: null is decoded as the empty string -/
+def typeElem : JV → Res JV
+  | .null => .ok (.str "")
+  | .str s => .ok (.str s)
+  | _ => .error .unparsed
+
+/-- `Types.UnmarshalJSON` then `Types.MarshalYAML`: a string becomes a one-element list and is written back
+    as a string; a one-element list is written as a string; the empty list is written as null (the three
+    marshallers that hold a `*Types` no longer reach this with an empty list: guard `neNilLenNe0`); anything
+    that is neither a string nor a list of strings is refused by the decoder -/
+def rtTypes : JV → Res JV
+  | .null => .ok .null
+  | .str s => .ok (.str s)
+  | .arr xs =>
+    match mapR typeElem xs with
+    | .error e => .error e
+    | .ok [] => .ok .null
+    | .ok [x] => .ok x
+    | .ok ys => .ok (.arr ys)
+  | _ => .error .unparsed
 
 /-- the `Schema.UnmarshalJSON` post-processing: `format: date` trims a `T00:00:00Z` suffix of a string example -/
 def hasDateSuffix (s : String) : Bool := "T00:00:00Z".toList.isSuffixOf s.toList
@@ -278,106 +332,190 @@ def hasDateSuffix (s : String) : Bool := "T00:00:00Z".toList.isSuffixOf s.toList
 def trimDate (s : String) : String :=
   if hasDateSuffix s then String.ofList (s.toList.take (s.toList.length - 10)) else s
 
-def applyPost (d : Desc) (o : Obj) : Obj :=
-  if d.post.contains "dateExampleTrim" then
-    match lookup "format" o, lookup "example" o with
-    | some (.str "date"), some (.str e) => o.map (fun kv => if kv.1 == "example" then (kv.1, .str (trimDate e)) else kv)
-    | _, _ => o
-  else o
+def JV.isStrEq (t : String) : JV → Bool | .str s => s == t | _ => false
+def JV.endsDate : JV → Bool | .str e => hasDateSuffix e | _ => false
+def JV.trimDate : JV → JV | .str e => .str (KinModel.Marshal.trimDate e) | v => v
+
+/-- the object has `format: "date"` and a string `example` ending in `T00:00:00Z` -/
+def trimmable (o : Obj) : Bool :=
+  (lookup "format" o).any (JV.isStrEq "date") && (lookup "example" o).any JV.endsDate
 
 /-- the input reaches the date-trimming statement and is changed by it (exclusion class `DateExampleTrim`) -/
-def dateTrimHit (d : Desc) (o : Obj) : Bool :=
-  d.post.contains "dateExampleTrim" &&
-  (match lookup "format" o, lookup "example" o with
-   | some (.str "date"), some (.str e) => hasDateSuffix e
-   | _, _ => false)
+def dateTrimHit (d : Desc) (o : Obj) : Bool := d.post.contains "dateExampleTrim" && trimmable o
 
-/-- why the deep model has no value: the real code panics (nil dereference in a value-receiver
-    `MarshalYAML`), or the fuel of the model ran out (never with the fuel the driver passes) -/
-inductive Err | panic | fuel
-  deriving DecidableEq, Repr
-
-abbrev Res := Except Err
+def applyPost (d : Desc) (o : Obj) : Obj :=
+  if dateTrimHit d o then o.map (fun kv => if kv.1 == "example" then (kv.1, kv.2.trimDate) else kv) else o
 
 /-- `MarshalYAML` where the value of every written field is marshalled by its own marshaller `f` -/
 def marshalDeep (f : Shape → JV → Res JV) (d : Desc) (r : Rec) : Res Obj :=
-  if d.refEarly && !(r.fld "Ref").isEmptyStr then pure [("$ref", r.fld "Ref")]
+  if d.refEarly && !(r.fld "Ref").isEmptyStr then .ok [("$ref", r.fld "Ref")]
   else
-    ((d.marsh.filter (fun m => guard (tcOfGo d m.goName) m.guard (r.fld m.goName))).mapM
-      (fun (m : MField) => (f (shapeOfGo d m.goName) (r.fld m.goName)).map (fun v' => (m.key, v')))).map
+    (mapR (fun (m : MField) =>
+              (f (shapeOfGo d m.goName) (written m.guard (r.fld m.goName))).wrap (fun v' => (m.key, v')))
+          (d.marsh.filter (fun m => guard (tcOfGo d m.goName) m.guard (r.fld m.goName)))).wrap
       (fun fs => fs ++ (if d.extCopy then r.ext else []))
+
+/-- what the decoder of the element type makes of a null element of a slice / a null entry of a plain map:
+    a named map type turns it into an empty map, a string into "" -/
+def nullFix : Shape → JV → JV
+  | .pmap _, .null => .obj []
+  | .strLeaf, .null => .str ""
+  | _, v => v
+
+/-- a null entry of a map of reference wrappers is decoded into a pointer to a zero wrapper: its marshaller
+    writes null when it checks `Value` (or the value's marshaller tolerates nil), and panics otherwise -/
+def nilEntry (T : List Desc) (w : String) : Res JV :=
+  match findDesc T w with
+  | some d => if d.valueNilSafe then .ok .null else .error .panic
+  | none => .ok .null
+
+/-- an entry of a named map type / of a map-like container (decoded by `unmarshalStringMapP`: a null entry
+    becomes a pointer to the zero value of the entry type) -/
+def entryStep (T : List Desc) (f : Shape → JV → Res JV) (s : Shape) (v : JV) : Res JV :=
+  match v with
+  | .null =>
+    (match s with
+     | .ref w => nilEntry T w
+     | .kind k => f (.kind k) (.obj [])
+     | .strLeaf => f .strLeaf (.str "")
+     | _ => .ok .null)
+  | v => f s v
+
+def entryShapeOf (d : Desc) : Shape := match d.valueShape with | .map s => s | s => s
+
+def stepAddProps (f : Shape → JV → Res JV) : JV → Res JV
+  | .obj [] => .ok (.obj [])
+  | .obj (kv :: kvs) => f (.ref "openapi3.SchemaRef") (.obj (kv :: kvs))
+  | v => .ok v
+
+def stepList (f : Shape → JV → Res JV) (s : Shape) : JV → Res JV
+  | .arr xs => (mapR (fun x => f s (nullFix s x)) xs).wrap .arr
+  | v => .ok v
+
+def stepMap (f : Shape → JV → Res JV) (s : Shape) : JV → Res JV
+  | .obj kvs => (mapKV (fun _ x => f s (nullFix s x)) kvs).wrap .obj
+  | v => .ok v
+
+def stepPMap (T : List Desc) (f : Shape → JV → Res JV) (s : Shape) : JV → Res JV
+  | .obj kvs => (mapKV (fun _ x => entryStep T f s x) kvs).wrap .obj
+  | v => .ok v
+
+/-- reference wrapper: `$ref` (a non-empty string) wins and everything next to it is dropped; otherwise the
+    object is the value -/
+def stepRef (T : List Desc) (f : Shape → JV → Res JV) (w : String) : JV → Res JV
+  | .obj kvs =>
+    (match findDesc T w with
+     | none => .ok (.obj kvs)
+     | some d =>
+       match refString kvs with
+       | some r => .ok (.obj [("$ref", .str r)])
+       | none => f d.valueShape (.obj kvs))
+  | v => .ok v
+
+/-- map-like container (Paths / Responses / Callback): `x-` keys are extensions, `__origin__` is dropped,
+    every other key is an entry -/
+def stepMaplike (T : List Desc) (f : Shape → JV → Res JV) (w : String) : JV → Res JV
+  | .obj kvs =>
+    (match findDesc T w with
+     | none => .ok (.obj kvs)
+     | some d =>
+       (mapKV (fun k x => if isExtKey k then .ok x else entryStep T f (entryShapeOf d) x)
+          (kvs.filter (fun kv => kv.1 != "__origin__"))).wrap .obj)
+  | v => .ok v
+
+def stepKind (T : List Desc) (f : Shape → JV → Res JV) (k : String) (v : JV) : Res JV :=
+  match findDesc T k with
+  | none => .ok v
+  | some d =>
+    match d.template with
+    | .alias => f d.valueShape v
+    | .struct =>
+      (match v with
+       | .obj kvs => (marshalDeep f d (unmarshal d (applyPost d kvs))).wrap .obj
+       | v => .ok v)
+    | _ => .ok v
+
+/-- one level of the deep round trip (unmarshal then marshal): the flat step at an object of a struct kind,
+    the special shapes, and `f` for everything one level down -/
+def rtStep (T : List Desc) (f : Shape → JV → Res JV) : Shape → JV → Res JV
+  | .leaf, v => .ok v
+  | .strLeaf, v => .ok v
+  | .unknown _, v => .ok v
+  | .types, v => rtTypes v
+  | .addProps, v => stepAddProps f v
+  | .list s, v => stepList f s v
+  | .map s, v => stepMap f s v
+  | .pmap s, v => stepPMap T f s v
+  | .ref w, v => stepRef T f w v
+  | .maplike w, v => stepMaplike T f w v
+  | .kind k, v => stepKind T f k v
 
 /-- deep round trip with fuel (`.error .fuel` = out of fuel; the driver passes more than the depth needs). -/
 def rt (T : List Desc) : Nat → Shape → JV → Res JV
   | 0, _, _ => .error .fuel
-  | n + 1, s, v =>
-    -- what a pointer to the zero value of the shape marshals to (null entries of named maps and of
-    -- map-like containers are decoded into such pointers)
-    let zeroEntry : Shape → Res JV := fun s =>
-      match s with
-      | .ref w => (match findDesc T w with
-                   | some d => if d.valueNilSafe then pure .null else .error .panic
-                   | none => pure .null)
-      | .kind k => rt T n (.kind k) (.obj [])
-      | .strLeaf => pure (.str "")
-      | _ => pure .null
-    let entry : Shape → JV → Res JV := fun s v =>
-      match v with
-      | .null => zeroEntry s
-      | v => rt T n s v
-    match s, v with
-    | .leaf, v => pure v
-    | .strLeaf, v => pure v
-    | .unknown _, v => pure v
-    | .types, v => pure (rtTypes v)
-    | .addProps, .obj [] => pure (.obj [])
-    | .addProps, .obj kvs => rt T n (.ref "openapi3.SchemaRef") (.obj kvs)
-    | .addProps, v => pure v
-    | .list s, .arr xs =>
-      -- a null element of a slice of named maps is decoded by the map's UnmarshalJSON into an empty map
-      (xs.mapM (fun (x : JV) => match s, x with
-                               | .pmap _, .null => pure (JV.obj [])
-                               | .strLeaf, .null => pure (JV.str "")
-                               | s, x => rt T n s x)).map .arr
-    | .list _, v => pure v
-    | .map s, .obj kvs =>
-      (kvs.mapM (fun (kv : String × JV) => (match s, kv.2 with
-                                            | .strLeaf, .null => pure (JV.str "")
-                                            | s, x => rt T n s x).map (fun v' => (kv.1, v')))).map .obj
-    | .map _, v => pure v
-    | .pmap s, .obj kvs =>
-      (kvs.mapM (fun (kv : String × JV) => (entry s kv.2).map (fun v' => (kv.1, v')))).map .obj
-    | .pmap _, v => pure v
-    | .ref w, v =>
-      match findDesc T w with
-      | none => pure v
-      | some d =>
-        match v with
-        | .obj kvs =>
-          match refString kvs with
-          | some r => pure (.obj [("$ref", .str r)])
-          | none => rt T n d.valueShape v
-        | v => rt T n d.valueShape v
-    | .maplike w, .obj kvs =>
-      match findDesc T w with
-      | none => pure (.obj kvs)
-      | some d =>
-        let entryShape := match d.valueShape with | .map s => s | s => s
-        ((kvs.filter (fun kv => kv.1 != "__origin__")).mapM (fun (kv : String × JV) =>
-          if isExtKey kv.1 then pure kv
-          else (entry entryShape kv.2).map (fun v' => (kv.1, v')))).map .obj
-    | .maplike _, v => pure v
-    | .kind k, v =>
-      match findDesc T k with
-      | none => pure v
-      | some d =>
-        match d.template with
-        | .alias => rt T n d.valueShape v
-        | .struct =>
-          match v with
-          | .obj kvs => (marshalDeep (rt T n) d (unmarshal d (applyPost d kvs))).map .obj
-          | v => pure v
-        | _ => pure v
+  | n + 1, s, v => rtStep T (rt T n) s v
+
+/-! ### exclusion and side conditions of the deep stability theorem -/
+
+mutual
+/-- No object anywhere in the document is changed by the date-trimming statement: the exclusion class
+    DateExampleTrim, applied at every depth (and whatever kind the object is read as). -/
+def JV.clean : JV → Bool
+  | .arr xs => cleanL xs
+  | .obj kvs => !trimmable kvs && cleanO kvs
+  | _ => true
+def cleanL : List JV → Bool
+  | [] => true
+  | x :: r => x.clean && cleanL r
+def cleanO : List (String × JV) → Bool
+  | [] => true
+  | (_, v) :: r => v.clean && cleanO r
+end
+
+/-- neither null nor an empty list / object -/
+def JV.nonEmpty (v : JV) : Bool := !(v.isNull || v.isEmptyColl)
+
+/-- shapes whose values are collections (or plain JSON): a non-empty one stays non-empty in the round trip -/
+def collShape : Shape → Bool
+  | .leaf => true
+  | .list _ => true
+  | .map _ => true
+  | .pmap _ => true
+  | .types => true
+  | _ => false
+
+/-- the child shape fits the Go type class of the field (what the guards of the marshaller rely on) -/
+def tcShapeOK : TC → Shape → Bool
+  | .str, s => s == .leaf
+  | .bool, s => s == .leaf
+  | .uint, s => s == .leaf
+  | .iface, s => s == .leaf
+  | .ptypes, s => s == .types
+  | .slice, .leaf => true
+  | .slice, .list _ => true
+  | .map, .leaf => true
+  | .map, .map _ => true
+  | .nmap, .pmap _ => true
+  | .ptr, s => s != .types
+  | .value, s => s != .types
+  | .addProps, s => s == .addProps
+  | _, _ => false
+
+/-- side conditions of the deep stability theorem on one row of the table (decidable; `by decide` over the
+    regenerated table): struct kinds agree, child shapes fit the type classes, the post-processing reads plain
+    fields; wrappers and aliases do not stand for a bare type list -/
+def refSafe : Shape → Bool
+  | .map s => s != .types
+  | .pmap s => s != .types
+  | _ => true
+
+def Desc.deepOK (d : Desc) : Bool :=
+  d.valueShape != .types && refSafe d.valueShape &&
+  match d.template with
+  | .struct =>
+    structAgree d && d.fields.all (fun f => tcShapeOK f.tc f.shape) &&
+    (d.post.isEmpty || d.fields.all (fun f => !(f.key == "format" || f.key == "example") || f.shape == .leaf))
+  | _ => true
 
 /-! ### deep normal form (spec side): follows the shape grammar, not the marshallers -/
 
@@ -386,54 +524,103 @@ def allStr : List JV → Bool
   | .str _ :: r => allStr r
   | _ :: _ => false
 
+def JV.isStr : JV → Bool | .str _ => true | _ => false
+
+/-- a type list in normal form: one string, or a list of at least two strings -/
+def normTypes : JV → Bool
+  | .str _ => true
+  | .arr (x :: y :: r) => allStr (x :: y :: r)
+  | _ => false
+
+def normAddProps (g : Shape → JV → Bool) : JV → Bool
+  | .bool _ => true
+  | .obj kvs => g (.ref "openapi3.SchemaRef") (.obj kvs)
+  | _ => false
+
+def normList (g : Shape → JV → Bool) (s : Shape) : JV → Bool
+  | .arr xs => xs.all (g s)
+  | _ => false
+
+/-- a map: distinct keys, no null entry, every entry in normal form -/
+def normEntries (g : Shape → JV → Bool) (s : Shape) : JV → Bool
+  | .obj kvs => (kvs.map (·.1)).Nodup && kvs.all (fun kv => !kv.2.isNull && g s kv.2)
+  | _ => false
+
+/-- a reference wrapper: either `$ref` (a non-empty string) alone, or the value -/
+def normRef (T : List Desc) (g : Shape → JV → Bool) (w : String) : JV → Bool
+  | .obj kvs =>
+    (match findDesc T w with
+     | none => false
+     | some d =>
+       if hasKey "$ref" kvs then (match kvs with | [(_, .str r)] => r != "" | _ => false)
+       else g d.valueShape (.obj kvs))
+  | _ => false
+
+def normMaplike (T : List Desc) (g : Shape → JV → Bool) (w : String) : JV → Bool
+  | .obj kvs =>
+    (match findDesc T w with
+     | none => false
+     | some d =>
+       (kvs.map (·.1)).Nodup && !hasKey "__origin__" kvs &&
+       kvs.all (fun kv => isExtKey kv.1 || (!kv.2.isNull && g (entryShapeOf d) kv.2)))
+  | _ => false
+
+def normKind (T : List Desc) (g : Shape → JV → Bool) (k : String) : JV → Bool
+  | .obj kvs =>
+    (match findDesc T k with
+     | none => false
+     | some d =>
+       match d.template with
+       | .alias => g d.valueShape (.obj kvs)
+       | .struct =>
+         normalObjB d kvs && !hasKey "__origin__" kvs &&
+         kvs.all (fun kv => match fieldByKey d kv.1 with
+                            | some f => g f.shape kv.2
+                            | none => true)
+       | _ => false)
+  | _ => false
+
+/-- one level of the deep normal form; `g` is the normal form one level down -/
+def normStep (T : List Desc) (g : Shape → JV → Bool) : Shape → JV → Bool
+  | .leaf, _ => true
+  | .strLeaf, v => v.isStr
+  | .unknown _, _ => false
+  | .types, v => normTypes v
+  | .addProps, v => normAddProps g v
+  | .list s, v => normList g s v
+  | .map s, v => normEntries g s v
+  | .pmap s, v => normEntries g s v
+  | .ref w, v => normRef T g w v
+  | .maplike w, v => normMaplike T g w v
+  | .kind k, v => normKind T g k v
+
+/-- deep normal form of a document of shape `s`: no redundant default, no sibling next to `$ref`, no null
+    entry, no duplicate key, required fields present — at every object the shape grammar reaches -/
 def normalB (T : List Desc) : Nat → Shape → JV → Bool
   | 0, _, _ => false
-  | n + 1, s, v =>
-    match s, v with
-    | .leaf, _ => true
-    | .strLeaf, .str _ => true
-    | .strLeaf, _ => false
-    | .unknown _, _ => false
-    | .types, .str _ => true
-    | .types, .arr (x :: y :: r) => allStr (x :: y :: r)
-    | .types, _ => false
-    | .addProps, .bool _ => true
-    | .addProps, .obj kvs => normalB T n (.ref "openapi3.SchemaRef") (.obj kvs)
-    | .addProps, _ => false
-    | .list s, .arr xs => xs.all (normalB T n s)
-    | .list _, _ => false
-    | .map s, .obj kvs => (kvs.map (·.1)).Nodup && kvs.all (fun kv => !kv.2.isNull && normalB T n s kv.2)
-    | .map _, _ => false
-    | .pmap s, .obj kvs => (kvs.map (·.1)).Nodup && kvs.all (fun kv => !kv.2.isNull && normalB T n s kv.2)
-    | .pmap _, _ => false
-    | .ref w, .obj kvs =>
-      (match findDesc T w with
-       | none => false
-       | some d =>
-         if hasKey "$ref" kvs then (match kvs with | [(_, .str r)] => r != "" | _ => false)
-         else normalB T n d.valueShape (.obj kvs))
-    | .ref _, _ => false
-    | .maplike w, .obj kvs =>
-      (match findDesc T w with
-       | none => false
-       | some d =>
-         let entryShape := match d.valueShape with | .map s => s | s => s
-         (kvs.map (·.1)).Nodup && !hasKey "__origin__" kvs &&
-         kvs.all (fun kv => isExtKey kv.1 || (!kv.2.isNull && normalB T n entryShape kv.2)))
-    | .maplike _, _ => false
-    | .kind k, .obj kvs =>
-      (match findDesc T k with
-       | none => false
-       | some d =>
-         match d.template with
-         | .alias => normalB T n d.valueShape (.obj kvs)
-         | .struct =>
-           normalObjB d kvs && !hasKey "__origin__" kvs &&
-           kvs.all (fun kv => match fieldByKey d kv.1 with
-                              | some f => normalB T n f.shape kv.2
-                              | none => true)
-         | _ => false)
-    | .kind _, _ => false
+  | n + 1, s, v => normStep T (normalB T n) s v
+
+/-! ### "the same JSON": equality up to the order of object members, at every depth -/
+
+mutual
+def JV.same : JV → JV → Prop
+  | .null, v1 => v1 = .null
+  | .bool b, v1 => v1 = .bool b
+  | .num m e, v1 => v1 = .num m e
+  | .str s, v1 => v1 = .str s
+  | .arr xs, v1 => v1 = .arr xs ∨ ∃ ys, v1 = .arr ys ∧ sameL xs ys
+  | .obj a, v1 => v1 = .obj a ∨
+      ∃ b, v1 = .obj b ∧ sameO a b ∧ (∀ k, (lookup k b).isSome = true → (lookup k a).isSome = true) ∧
+        (b.map (·.1)).Nodup
+/-- element by element -/
+def sameL : List JV → List JV → Prop
+  | [], ys => ys = []
+  | x :: xs, ys => ∃ y ys', ys = y :: ys' ∧ x.same y ∧ sameL xs ys'
+/-- every member of the first object is found in the second under its key, with the same value -/
+def sameO : List (String × JV) → Obj → Prop
+  | [], _ => True
+  | (k, x) :: r, b => (∃ y, lookup k b = some y ∧ x.same y) ∧ sameO r b
+end
 
 /-! ### canonical form for comparison (objects are Go maps: order is immaterial) -/
 
